@@ -65,7 +65,10 @@ Section View.
   Definition structs_of (fmt64 : bool) : structs :=
     mkstructs le (if fmt64 then 64 else 32) (Z.of_nat asize).
 
-  (* the augmentation dictionary: one key per augmentation character *)
+  (* the augmentation dictionary: one key per augmentation character ('z': the data length,
+     'L': the LSDA encoding byte, 'R': the FDE encoding byte, 'P': the personality routine as
+     (encoding byte, encoded value), 'S': a flag) *)
+  Definition is_S (a : aug_item) : bool := match a with AugS => true | _ => false end.
   Fixpoint dict_of_items (items : list aug_item) (d : augdict) : augdict :=
     match items with
     | [] => d
@@ -80,14 +83,13 @@ Section View.
     | AugP hi f v :: r =>
         dict_of_items r (mkaugdict (ad_length d) (ad_LSDA_encoding d) (ad_FDE_encoding d)
                                    (Some (mkpers (16 * hi + format_code f) (lv v))) (ad_True d))
-    | AugS :: r =>
-        dict_of_items r (mkaugdict (ad_length d) (ad_LSDA_encoding d) (ad_FDE_encoding d)
-                                   (ad_personality d) true)
+    | AugS :: r => dict_of_items r d
     end.
   Definition view_augdict (c : scie) : augdict :=
     match c_aug c with
     | None => empty_augdict
-    | Some (len, items) => dict_of_items items (mkaugdict (Some (lv len)) None None None false)
+    | Some (len, items) =>
+        dict_of_items items (mkaugdict (Some (lv len)) None None None (existsb is_S items))
     end.
 
   Definition view_cie (off : Z) (c : scie) : entry :=
